@@ -503,21 +503,31 @@ func c25Main() {
 	run.Extra["states_per_depth"] = levels
 	layouts := map[string]struct{}{}
 
+	// level-synchronous over all partition sizes, so that a time cap leaves every size explored
+	// to the same depth
+	seenOf := map[int]map[string]bool{}
+	frontierOf := map[int][]string{}
 	for _, ps := range psizes {
-		seen := map[string]bool{}
-		frontier := []string{""}
-		// the initial state
 		h0, _, v0, _ := c25Exec(ps, nids, nil)
 		if v0 != nil {
 			run.Violation(v0.key, fmt.Sprintf("partition size %d, empty sequence: %s", ps, v0.what), map[string]any{"partition_size": ps, "ops": []string{}})
 			continue
 		}
-		seen[h0] = true
+		seenOf[ps] = map[string]bool{h0: true}
+		frontierOf[ps] = []string{""}
 		run.Add(1, 0, 1)
 		levels[fmt.Sprint(ps)] = append(levels[fmt.Sprint(ps)], 1)
-		for d := 1; d <= depth && len(frontier) > 0; d++ {
+	}
+	capped := false
+	for d := 1; d <= depth && !capped; d++ {
+		for _, ps := range psizes {
+			seen, frontier := seenOf[ps], frontierOf[ps]
+			if seen == nil || len(frontier) == 0 {
+				continue
+			}
 			if time.Now().After(deadline) {
-				run.Capped(fmt.Sprintf("time cap: partition size %d explored completely to depth %d only", ps, d-1))
+				run.Capped(fmt.Sprintf("time cap: explored completely to depth %d only (partition sizes before %d also to depth %d)", d-1, ps, d))
+				capped = true
 				break
 			}
 			ff := filepath.Join(dir, fmt.Sprintf("frontier-%d-%d", ps, d))
@@ -565,7 +575,6 @@ func c25Main() {
 				<-done
 			}
 			var next []string
-			var trans int64
 			for _, rs := range results {
 				for _, w := range rs {
 					for _, x := range absorbC25(run, w) {
@@ -573,7 +582,6 @@ func c25Main() {
 						if len(f) < 3 || f[0] != "succ" {
 							continue
 						}
-						trans++
 						if !seen[f[1]] {
 							seen[f[1]] = true
 							next = append(next, f[2])
@@ -587,14 +595,13 @@ func c25Main() {
 			}
 			run.Add(int64(len(next)), 0, 0)
 			levels[fmt.Sprint(ps)] = append(levels[fmt.Sprint(ps)], len(next))
-			if d == depth-1 || d == depth {
+			if d == depth {
 				for _, s := range next[:min(2, len(next))] {
 					run.Sample(map[string]any{"partition_size": ps, "ops": strings.Fields(s)})
 				}
 			}
-			frontier = next
+			frontierOf[ps] = next
 			_ = os.Remove(ff)
-			_ = trans
 		}
 	}
 	run.Extra["distinct_observed_layouts"] = len(layouts)
